@@ -58,16 +58,75 @@ def mk_graph(g):
         N.name = 'a networkx graph'
         return N
     if g.get('grown') and g['n'] >= 2:
-        # the same graph reached by growing: start smaller, raise the vertex count in one call, then add the edges
-        G = Graph(g['n'] - 2)
+        # the same graph reached by growing: start smaller (by 2, by 3, or from nothing), raise the vertex count in one call,
+        # then add the edges
+        G = Graph(max(0, g['n'] - [2, 3, g['n']][g['grown'] - 1]))
         G.update_vertex_number(g['n'])
         for u, v in reversed(g['edges']):
             G.add_edge(v, u)
         return G
-    G = Graph(g['n'])
-    for u, v in g['edges']:
+    n, E = g['n'], [tuple(e) for e in g['edges']]
+    hist = g.get('hist')
+    if hist == 2 and E:
+        # the same OBJECT used before with other content: one edge elsewhere (same numbers of vertices and edges), every
+        # family and view run on it, then the edge is moved to where it belongs
+        missing = [(u, v) for u in range(1, n + 1) for v in range(u + 1, n + 1) if (u, v) not in E and (v, u) not in E]
+        if missing:
+            G = Graph(n)
+            for u, v in E[1:]:
+                G.add_edge(u, v)
+            G.add_edge(*missing[len(E) % len(missing)])
+            _observe_simple(G)
+            G.remove_edge(*missing[len(E) % len(missing)])
+            G.add_edge(*E[0])
+            return G
+    G = Graph(n)
+    if hist == 3:
+        # bulk insertion refused at its last pair (the pairs before it are inserted, as by repeated add_edge)
+        try:
+            G.add_edges_from(list(reversed(E)) + [(n + 1, 1)])
+        except ValueError:
+            pass
+        try:
+            G.add_edges_from([(1, 1)])
+        except ValueError:
+            pass
+        return G
+    for u, v in E:
         G.add_edge(u, v)
+    if hist == 1:
+        # insertions the graph refuses: they must leave no trace
+        for (u, v) in ((0, 1), (n, n + 1), (n + 1, 1), (1, 1), (n, n), (-1, 2), (1, n + 2)):
+            try:
+                G.add_edge(u, v)
+            except ValueError:
+                pass
+        try:
+            G.remove_edge(n + 1, 1)
+        except ValueError:
+            pass
     return G
+
+
+def _observe_simple(G):
+    """read every view of G and build every family that takes one simple graph (results discarded)"""
+    n = G.number_of_vertices()
+    list(G.edges()), G.number_of_edges(), [list(G.neighbors(v)) for v in range(1, n + 1)], G.to_networkx()
+    from cnfgen.families.coloring import GraphColoringFormula, EvenColoringFormula
+    from cnfgen.families.dominatingset import DominatingSet, Tiling
+    from cnfgen.families.subgraph import CliqueFormula, BinaryCliqueFormula, RamseyWitnessFormula, SubgraphFormula
+    from cnfgen.families.ordering import GraphOrderingPrinciple
+    from cnfgen.families.counting import PerfectMatchingPrinciple
+    from cnfgen.families.tseitin import TseitinFormula
+    from cnfgen.families.graphisomorphism import GraphIsomorphism, GraphAutomorphism
+    for f in (lambda: GraphColoringFormula(G, 2), lambda: EvenColoringFormula(G), lambda: DominatingSet(G, 1), lambda: Tiling(G),
+              lambda: CliqueFormula(G, 2), lambda: CliqueFormula(G, 3), lambda: BinaryCliqueFormula(G, 2), lambda: RamseyWitnessFormula(G, 2, 2),
+              lambda: SubgraphFormula(G, G), lambda: GraphOrderingPrinciple(G), lambda: PerfectMatchingPrinciple(G),
+              lambda: TseitinFormula(G), lambda: GraphIsomorphism(G, G), lambda: GraphAutomorphism(G)):
+        try:
+            f()
+        except ValueError:
+            pass
 
 
 def mk_bip(g):
@@ -89,6 +148,14 @@ def mk_bip(g):
     B = BipartiteGraph(g['l'], g['r'])
     for u, v in g['edges']:
         B.add_edge(u, v)
+    if g.get('hist'):
+        for (u, v) in ((0, 1), (g['l'] + 1, 1), (1, g['r'] + 1), (1, 0), (-1, 1), (g['l'] + 1, g['r'] + 1)):
+            try:
+                B.add_edge(u, v)
+            except ValueError:
+                pass
+        for u, v in g['edges'][:2]:
+            B.add_edge(u, v)                 # duplicates change nothing
     return B
 
 
@@ -104,6 +171,15 @@ def mk_digraph(g):
     D = DirectedGraph(g['n'])
     for u, v in g['edges']:
         D.add_edge(u, v)
+    if g.get('hist'):
+        n = g['n']
+        for (u, v) in [(0, 1), (n + 1, 1), (-1, 2)] + [(w, n + 1) for w in range(1, n + 1)] + [(w, 0) for w in range(1, n + 1)]:
+            try:
+                D.add_edge(u, v)
+            except ValueError:
+                pass
+        for u, v in g['edges'][:2]:
+            D.add_edge(u, v)
     return D
 
 
@@ -194,12 +270,16 @@ def max_bip_matching(l, r, edges):
 
 
 def with_networkx_inputs(name_points, every=5):
-    """extra points: the graph argument given as a networkx object (documented as accepted by every family)"""
+    """extra points: the graph argument given as a networkx object (documented as accepted by every family), grown from a
+    smaller graph, or as an object with a past (refused insertions, earlier use with other content)"""
     out = []
     for i, (name, p) in enumerate(name_points):
         if 'edges' in p and i % every == 2:
             q = dict(p, nx=1 + (i // every) % 2)
             out.append((name, q))
         if 'edges' in p and 'n' in p and 'l' not in p and i % every == 4:
-            out.append((name, dict(p, grown=1)))
+            out.append((name, dict(p, grown=1 + (i // every) % 3)))
+        if 'edges' in p and i % every == 0:
+            # the graph object has a past: refused insertions, a refused bulk insertion, earlier use with other content
+            out.append((name, dict(p, hist=1 + (i // every) % 3)))
     return out
